@@ -1349,6 +1349,14 @@ func c11DeviateFieldsFilled(ctx *core.Ctx, r *core.Report) {
 		read, written := map[string]bool{}, map[string]bool{}
 		for _, f := range scopeFuncs(ctx, "meta") {
 			isApply := strings.HasSuffix(core.FnName(f), "resolver.applyDeviation") || strings.HasSuffix(core.FnName(f), "resolver.checkDeviationTarget")
+			// an unexported setter nobody calls fills nothing in
+			called := true
+			if n := ctx.CG().Nodes[f]; n != nil && len(n.In) == 0 && !f.Object().Exported() {
+				called = false
+			}
+			if !called && !isApply {
+				continue
+			}
 			core.Instrs(f, func(_ *ssa.BasicBlock, in ssa.Instruction) {
 				fa, ok := in.(*ssa.FieldAddr)
 				if !ok || core.NamedOf(fa.X.Type()) != named {
@@ -1358,7 +1366,8 @@ func c11DeviateFieldsFilled(ctx *core.Ctx, r *core.Report) {
 				for _, ref := range *fa.Referrers() {
 					switch y := ref.(type) {
 					case *ssa.Store:
-						if y.Addr == ssa.Value(fa) {
+						// a copy made by clone() fills nothing in
+						if y.Addr == ssa.Value(fa) && f.Name() != "clone" {
 							written[name] = true
 						}
 					case *ssa.UnOp:
